@@ -862,6 +862,7 @@ func main() {
 	registry(&o, f)
 	skeletons(&o, f)
 	distinctFacts(&o, f)
+	identifierScanner(&o)
 	o.WriteString("end Csvq.Gen.An\n")
 	fmt.Print(o.String())
 }
@@ -1670,6 +1671,59 @@ func distinctFacts(o *strings.Builder, f *ast.File) {
 	// --- Analyze: what receives the values of windowValues (built-in aggregate with the session flags; user aggregate)
 	an := findFunc(f, "", "Analyze")
 	fmt.Fprintf(o, "/-- Analyze: the calls that produce and consume the values of a frame (function, arguments) -/\ndef frameValueCalls : List (String × List String) :=\n  [%s]\n\n", strings.Join(callFacts(an, regexp.MustCompile(`^(windowValues|aggfn|udfn\.ExecuteAggregate|WindowFrameSet)$`)), ", "))
+}
+
+// ---------- header.go equalFieldIdentifiers: the scanner that decides whether two printed expressions are one column ----------
+
+// Fails closed: the function must consist of the three early returns, the two state variables, ONE loop over the runes
+// of `a` whose body is ONE tagless switch, and `return true`; anything else is outside the modelled shape.
+func identifierScanner(o *strings.Builder) {
+	hf, err := parser.ParseFile(fset, filepath.Join(repo(), "lib", "query", "header.go"), nil, 0)
+	if err != nil {
+		die("%v", err)
+	}
+	fd := findFunc(hf, "", "equalFieldIdentifiers")
+	loop, at := findLoop(fd.Body.List, "equalFieldIdentifiers")
+	rs, ok := loop.(*ast.RangeStmt)
+	if !ok {
+		die("equalFieldIdentifiers: the loop is no longer a range loop")
+	}
+	if len(rs.Body.List) != 1 {
+		die("equalFieldIdentifiers: the loop body is no longer a single switch (%d statements)", len(rs.Body.List))
+	}
+	sw, ok := rs.Body.List[0].(*ast.SwitchStmt)
+	if !ok || sw.Tag != nil || sw.Init != nil {
+		die("equalFieldIdentifiers: the loop body is no longer a tagless switch")
+	}
+	var cases []string
+	for _, cl := range sw.Body.List {
+		cc := cl.(*ast.CaseClause)
+		if len(cc.List) != 1 {
+			die("equalFieldIdentifiers: a case with %d conditions (default or list)", len(cc.List))
+		}
+		var body []string
+		for _, b := range cc.Body {
+			if _, ok := b.(*ast.BranchStmt); ok {
+				die("equalFieldIdentifiers: fallthrough / break inside the switch")
+			}
+			body = append(body, src(b))
+		}
+		cases = append(cases, "("+q(src(cc.List[0]))+", "+q(strings.Join(body, "; "))+")")
+	}
+	var pre, post []string
+	for _, st := range fd.Body.List[:at] {
+		pre = append(pre, src(st))
+	}
+	for _, st := range fd.Body.List[at+1:] {
+		post = append(post, src(st))
+	}
+	fmt.Fprintf(o, "/-- header.go equalFieldIdentifiers: the statements in front of the scanner (early returns, the runes, the state) -/\ndef identifierPrologue : List String :=\n  %s\n\n", strList(pre))
+	fmt.Fprintf(o, "def identifierLoop : String := %s\n\n", q(rangeHeader(rs)))
+	fmt.Fprintf(o, "/-- the cases of the scanner's switch IN ORDER (condition, statements); the first case that applies is taken -/\ndef identifierScannerCases : List (String × String) :=\n  [%s]\n\n", strings.Join(cases, ", "))
+	fmt.Fprintf(o, "def identifierEpilogue : List String :=\n  %s\n\n", strList(post))
+	// Header.ContainsObject: the comparison every candidate field goes through
+	co := findFunc(hf, "Header", "ContainsObject")
+	fmt.Fprintf(o, "/-- Header.ContainsObject: every call it makes to the identifier formatter and comparison (function, arguments) -/\ndef containsObjectCalls : List (String × List String) :=\n  [%s]\n\n", strings.Join(callFacts(co, regexp.MustCompile(`^(FormatFieldIdentifier|equalFieldIdentifiers|strings\\.EqualFold)$`)), ", "))
 }
 
 func sigOf(fd *ast.FuncDecl) string {
